@@ -16,7 +16,7 @@ func (Prop) Configs(tier string) []string {
 	return []string{"c-race", "c-race-purego", "c-race-nopclmul", "c-race-noaes", "c-race-noavx2", "c-race-aesni1"}
 }
 
-var lightScenario = map[string]bool{"S24-sm2-kx-sessions-on-shared-keys": true, "S1-sm2-key": true, "S2-sm2-key-d=n-1": true, "S3-ecdh-key": true, "S9-sm3-constructors": true, "S10-sm2-public-key": true,
+var lightScenario = map[string]bool{"S25-sm2ec-order-field-helpers-two-threads": true, "S24-sm2-kx-sessions-on-shared-keys": true, "S1-sm2-key": true, "S2-sm2-key-d=n-1": true, "S3-ecdh-key": true, "S9-sm3-constructors": true, "S10-sm2-public-key": true,
 	"S15-sm9-generated-key-two-unwraps": true, "S6a-sm2-singletons": true, "S16-keygen-on-shared-singletons": true}
 
 // tierDependent lists the scenarios whose shared objects are implemented differently per CPU dispatch tier
@@ -79,6 +79,12 @@ func (Prop) Run(c *engine.Ctx) {
 			// interleaving to report a conflict at package scope; the serial orders and one pre-emption at the (few)
 			// sync points are enumerated, the function-entry yields are not (thousands of points per thread)
 			yb = 0
+			// operation boundaries (acc.add) are scheduling points there: every schedule with one pre-emption (thorough:
+			// two) between operations, so that the same operation of the two threads runs back to back
+			sb = 1
+			if !quick {
+				sb = 2
+			}
 		}
 		if quick && strings.Contains(sc.name, "sm9") && sb > 2 {
 			sb = 2 // an SM9 execution costs 10-20 ms under the race detector (pairings)
